@@ -273,8 +273,12 @@ def run(pid, tier, seed, replay=None):
     wall = time.time() - t0
     ev = {'property_id': pid, 'tier': tier, 'seed': seed, 'level': 'proof', 'coverage': cov,
           'assumptions': list(P.assumptions), 'wall_s': round(wall, 2), 'violations': nviol}
-    ensure_dir(os.path.join(VERIF, 'evidence'))
-    with open(os.path.join(VERIF, 'evidence', pid + '.json'), 'w') as f:
+    # a run against another repository path (a seeded scratch worktree, VERIF_REPO) does not describe /repo:
+    # its evidence goes to a scratch directory, /verif/evidence keeps what the checks found on /repo itself
+    from .util import REPO as _REPO
+    edir = os.path.join(VERIF, 'evidence') if os.path.realpath(_REPO) == '/repo' else ensure_dir(os.path.join('/tmp', 'verif_evidence_other_repo'))
+    ensure_dir(edir)
+    with open(os.path.join(edir, pid + '.json'), 'w') as f:
         json.dump(ev, f, indent=1, sort_keys=True)
     for l in lines:
         print(l)
